@@ -23,6 +23,33 @@ CHECKS = {
             "deserialized by serde from JSON text (both key orders) and the re-serialization must inhabit the type again."),
 }
 
+CHECKS.update({
+    "C05": ("exploration", "3.C05",
+            "permutation fold of the real merge() against an swc-built reference + real exports in every order + seeded concurrent "
+            "schedules with an event-log mutual-exclusion checker",
+            "Three monitors over the real merge/export code: every permutation and prefix of sets of single-type files folded through merge() "
+            "and compared byte-for-byte with a reference composition built from swc-parsed parts; real exports of the types sharing a file in "
+            "every order (and again, for idempotence); barrier-released threads with seeded delays at the probe points, where the recorded event "
+            "log must show no second thread inside export_and_merge's read-merge-write section and the final bytes must equal the reference. "
+            "The evidence lists the distinct lock-acquisition orders actually observed."),
+    "C06": ("exploration", "3.C06",
+            "history enumeration over the export entry points with directory-snapshot oracle against the canonical tree of the same set",
+            "Tens of thousands of call sequences (all ordered pairs of (type, entry point) + random longer ones) over six spellings of the export "
+            "directory and three initial directory states are executed against the real exporter; the final tree must equal the canonical tree "
+            "of the exported declaration set, no declaration may disappear between steps, stale bytes and unrelated files are checked."),
+    "C08": ("exploration", "3.C08",
+            "exhaustive path-pair enumeration through the real import_path with an independent lexical resolver (cross-checked with posixpath "
+            "and the file system)",
+            "Every pair of importing/imported file paths up to the depth bound over an alphabet with `.`, `..`, dotted names and names ending in "
+            "`ts`, under seven base-directory spellings and both import-esm settings, is pushed through the function generate_imports uses; an "
+            "independent resolver decides whether the specifier is relative, extension-free and denotes the dependency's file."),
+    "C17": ("fault_enumeration", "3.C17",
+            "fault-injection histories (obstacle before one step, removed before retry) with snapshot/registry oracle against the fault-free run",
+            "Histories of real export calls with one obstacle of each kind injected before each position; the monitor checks the call returns "
+            "Err rather than panicking, the registry lock is not poisoned, other files are untouched, and after removing the obstacle the retry "
+            "leads to exactly the tree of the fault-free history."),
+})
+
 PENDING = {}
 
 
